@@ -140,8 +140,14 @@ Inductive kind := KReply | KPartial | KFull.
 
 Inductive op :=
 | Msg (p : N) (k : kind) (m : dmsg)            (* datagram from peer p's NodeManagement to ours *)
-| RegAdd (p : N) (kd : N) (a : addr) (fid : N).
-    (* kd 0/1: peer p's client feature (a, fid) subscribes / binds to a local server
+| RegAdd (p : N) (kd : N) (a : addr) (fid : N)
+| MsgDuring (p : N) (k : kind) (m : dmsg) (p' : N) (kd : N) (a : addr) (fid : N).
+    (* the datagram of peer p, during whose removal cascade (while the subscription / binding registry
+       publishes its removal events) the subscription (kd 0) or binding (kd 1) request call of ANOTHER
+       peer p' for its feature (a, fid) is delivered on a second goroutine.  The registries hold their
+       lock across the whole removal, so the call waits and takes effect afterwards: the operation is
+       the message followed by the call.  A call of the same peer (p' = p) is not delivered. *)
+    (* RegAdd kd 0/1: peer p's client feature (a, fid) subscribes / binds to a local server
        feature reserved for it (SubscriptionManager.AddSubscription / BindingManager.AddBinding),
        kd 2/3: the local client feature calls SubscribeToRemote / BindToRemote for
        p's feature (a, fid); each only if the entry is not there yet *)
@@ -365,10 +371,18 @@ Definition reg_add (s : st) (p kd : N) (a : addr) (fid : N) : st * bool :=
       else (s, false)
   end.
 
+(* the request call of peer p' that arrived while peer p's message was processed *)
+Definition call_after (s : st) (p p' kd : N) (a : addr) (fid : N) : st * bool :=
+  if N.eqb p p' || negb (N.eqb kd K_SUB || N.eqb kd K_BIND) then (s, false) else reg_add s p' kd a fid.
+
 Definition step (s : st) (o : op) : st * list obs :=
   match o with
   | Msg p k m => let '(s1, evs) := handle_msg s p k m in (s1, OSnap s1 :: evs)
   | RegAdd p kd a fid => let '(s1, ok) := reg_add s p kd a fid in (s1, [OSnap s1; ORes ok])
+  | MsgDuring p k m p' kd a fid =>
+      let '(s1, evs) := handle_msg s p k m in
+      let '(s2, ok) := call_after s1 p p' kd a fid in
+      (s2, OSnap s2 :: evs ++ [ORes ok])
   end.
 
 Fixpoint run (s : st) (ops : list op) : st * list (op * list obs) :=
@@ -501,6 +515,15 @@ Definition parse_op (l : zs) : option op :=
       | Some a => if Z.leb 0 p && Z.ltb p 3 && Z.leb 0 kd && Z.ltb kd 4 && Z.leb 0 fid
                   then Some (RegAdd (Nz p) (Nz kd) a (Nz fid)) else None
       | None => None
+      end
+  | 3 :: p :: k :: p' :: kd :: fid :: r =>
+      match (if Z.eqb k 0 then Some KReply else if Z.eqb k 1 then Some KPartial
+             else if Z.eqb k 2 then Some KFull else None),
+            done ((a <- pAddr ;; m <- pMsg ;; pret (a, m)) r) with
+      | Some kk, Some (a, m) =>
+          if Z.leb 0 p && Z.ltb p 3 && Z.leb 0 p' && Z.ltb p' 3 && Z.leb 0 kd && Z.ltb kd 2 && Z.leb 0 fid
+          then Some (MsgDuring (Nz p) kk m (Nz p') (Nz kd) a (Nz fid)) else None
+      | _, _ => None
       end
   | _ => None
   end.
